@@ -104,7 +104,7 @@ def build(ck):
             if 'own_inverse' in (lk, rk) and {lk, rk} & {'composition', 'addition', 'lazy_inverse'}:
                 continue       # A.I is built on the reduced operand; the shortcut is about `is`-identical operands
             ck.explore(f'{CORE}.AbstractLinearOperator.__matmul__', (lambda lk, rk: lambda S: matmul(S, lk, rk))(lk, rk), T,
-                       label=f'{lk}@{rk}', axioms=axioms, call_hook=A.plain_call_hook)
+                       label=f'{lk}@{rk}', axioms=axioms, call_hook=A.plain_call_hook, contracts=A.size_contracts())
 
 
 def flat_terms(S, v):
@@ -170,7 +170,7 @@ def build(ck):          # noqa: F811
             for sub in (False, True):
                 ck.explore(f'{CORE}.AbstractLinearOperator.__add__' if not sub else f'{CORE}.AbstractLinearOperator.__sub__',
                            (lambda lk, rk, sub: lambda S: add(S, lk, rk, sub))(lk, rk, sub), T,
-                           label=f'{lk}{"-" if sub else "+"}{rk}', axioms=axioms, call_hook=A.plain_call_hook)
+                           label=f'{lk}{"-" if sub else "+"}{rk}', axioms=axioms, call_hook=A.plain_call_hook, contracts=A.size_contracts())
 
     # ------------------------------------------------------------------ k * a, a * k, a / k, -a, +a
     def scalar(S, kind, form):
@@ -229,4 +229,4 @@ def build(ck):          # noqa: F811
     for kind in SUMK:
         for form in ('k*a', 'a*k', 'a/k', '-a', '+a', 'vec*a', 'a/vec'):
             ck.explore(f'{CORE}.AbstractLinearOperator.__rmul__', (lambda kind, form: lambda S: scalar(S, kind, form))(kind, form),
-                       T, label=f'{form}:{kind}', axioms=axioms, call_hook=A.plain_call_hook)
+                       T, label=f'{form}:{kind}', axioms=axioms, call_hook=A.plain_call_hook, contracts=A.size_contracts())
